@@ -51,5 +51,7 @@ void set_yield(void (*fn)(int site));     // scheduler hook; called at every all
 extern uint64_t probe_hits[64];           // reach probes (CJSON_VERIF_YIELD sites)
 // describe live blocks for leak reports (serial, size, side, step)
 std::string describe_live(size_t max = 8);
+// for sanitizer reports on the custom arena: what the faulting address is (freed block, redzone, ...)
+const char *classify_address(const void *p);
 void set_step_index(int idx);
 }  // namespace asim
